@@ -122,11 +122,25 @@ OnLive(h, f, v, name) == /\ Can(name) /\ h \in Handles /\ Active(subs, handle[h]
                          /\ res' = "ok" /\ log' = <<>> /\ UNCHANGED <<handle, nid>> /\ UNCHANGED nn
 Mute(h) == OnLive(h, "muted", TRUE, "Mute")
 Unmute(h) == OnLive(h, "muted", FALSE, "Unmute")
+\* mute() on an observer that is muted already, unmute() on one that is not: nothing changes -- in particular mute() does not
+\* nest, one unmute() undoes any number of mute() calls.  Not part of Next (the graphs that are replayed edge by edge would
+\* only gain self-loops); the trace specification accepts them in recorded histories
+Again(h, f, v, name) == /\ Can(name) /\ h \in Handles /\ Active(subs, handle[h])
+                        /\ Entry(subs, handle[h])[f] = v
+                        /\ res' = "ok" /\ log' = <<>> /\ UNCHANGED <<subs, handle, nid, nn>>
+MuteAgain(h) == Again(h, "muted", TRUE, "Mute")
+UnmuteAgain(h) == Again(h, "muted", FALSE, "Unmute")
 Invalidate(h) == OnLive(h, "valid", FALSE, "Invalidate")
 \* h1 = std::move(h2) is a swap
 Swap(h1, h2) == /\ Can("Swap") /\ h1 \in Handles /\ h2 \in Handles /\ h1 # h2 /\ handle[h1] # handle[h2]
                 /\ handle' = [handle EXCEPT ![h1] = handle[h2], ![h2] = handle[h1]]
                 /\ res' = "ok" /\ log' = <<>> /\ UNCHANGED <<subs, nid>> /\ UNCHANGED nn
+\* a handle is given up (a default handle is move-assigned over it and the old one goes out of scope): Subscription has no
+\* destructor, the observer stays subscribed and is from now on reachable through the Subject only.  Like the *Again actions
+\* not part of Next; recorded histories use it to gather more observers than there are named handles
+Drop(h) == /\ Can("Drop") /\ h \in Handles /\ handle[h] # 0
+           /\ handle' = [handle EXCEPT ![h] = 0]
+           /\ res' = "ok" /\ log' = <<>> /\ UNCHANGED <<subs, nid, nn>>
 Notify(a) == /\ Can("Notify") /\ a \in Args
              /\ LET R == Round([subs |-> subs, handle |-> handle, nid |-> nid, log |-> <<>>, rc |-> 0, abort |-> FALSE], a, 1) IN
                 /\ subs' = R.subs /\ handle' = R.handle /\ nid' = R.nid /\ log' = R.log
